@@ -9,7 +9,8 @@ COQ_IMPORTS = ['Prims', 'CaseLib', 'BitsCore', 'Heap']
 RULE = ('histories of 4..18 steps over a growing pool of objects: create by every constructor form (bin/hex/bytes/bytearray/memoryview/array/iterable/bitarray/bitarray=/dtype keyword/filename/'
         'token string with cache hit or miss/fromstring), derive by cls(other), bits=, .bits=, copy.copy, .copy(), slicing, operators incl. same-object & and |, join, pack, read, cut, split, unpack, '
         '.bits, tobitarray, Array build/slice/copy; then mutate one side (any mutator, or the external bytearray/bitarray/array) and re-read bin/len/hash of every other object. The sharing graph '
-        '(which objects hold the same BitStore) is compared with the heap model after every step. non-trivial = a history with at least one mutation after a derivation; distinct by history')
+        '(which objects hold the same BitStore) is compared with the heap model after every step. Structured histories per class x duplication route of the copy / pickle modules (copy.deepcopy of the object, '
+        'of containers and user objects holding it, with a memo, pickle protocols 0-5, copyreg reconstruction): duplicate, derive from both sides, edit both sides, duplicate again (oracle only). non-trivial = a history with at least one mutation after a derivation; distinct by history')
 ASSUMPTIONS = ['object identity is observed through id(o._bitstore) in the harness process only to compare sharing graphs; the verdict is behavioural',
                'Array.data is the live buffer by documented design and is not a violation']
 COQ_PRELUDE = '''
@@ -38,7 +39,101 @@ MUT_FN = {  # the same mutation on the str model / as a Coq function on bits
     'reverse': (lambda d: d[::-1], '@rev bool'),
 }
 
+# duplicates made by the copy and pickle modules - of the object itself, of built-in containers and user objects (with and without __slots__) holding it, with an
+# explicit memo, twice in one container, next to another object, a duplicate of a duplicate, every pickle protocol. "however one was derived from the other (copy)":
+# the duplicate of a mutable object (and a mutable object later built from the duplicate of an immutable one) owns its bits.
+DEEP_DERIVE = ['deepcopy', 'deepcopy_memo', 'deepcopy_list', 'deepcopy_tuple', 'deepcopy_dict', 'deepcopy_dictkey', 'deepcopy_set', 'deepcopy_nested', 'deepcopy_pair', 'deepcopy_with_other',
+               'deepcopy_namespace', 'deepcopy_holder', 'deepcopy_slots_holder', 'deepcopy_shallow_holder', 'deepcopy_twice', 'deepcopy_of_copy', 'deepcopy_method',
+               'pickle_0', 'pickle_1', 'pickle_2', 'pickle_3', 'pickle_4', 'pickle_5', 'pickle_default', 'pickle_list', 'pickle_dict', 'pickle_holder', 'pickle_with_other', 'pickle_twice',
+               'pickle_then_deepcopy', 'reduce_ex']
+
+class _Holder:
+    def __init__(self, payload): self.payload = payload
+
+class _SlotHolder:
+    __slots__ = ('payload', 'more')
+    def __init__(self, payload): self.payload = payload; self.more = {'again': payload}
+
+def deep_derive(how, s, other):
+    """the duplicate of s by route `how` (other: another object of the pool, for the containers that hold two)"""
+    import pickle
+    dc = _copy.deepcopy
+    def pk(x, proto=None):
+        try: return pickle.loads(pickle.dumps(x, proto))
+        except (TypeError, pickle.PicklingError):
+            if proto in (0, 1): return pickle.loads(pickle.dumps(x, 2))       # protocols 0 and 1 refuse every class with __slots__ and no __getstate__ (Python's rule): not a route
+            raise
+    if how == 'deepcopy': return dc(s)
+    if how == 'deepcopy_memo': return dc(s, {})
+    if how == 'deepcopy_list': return dc([s])[0]
+    if how == 'deepcopy_tuple': return dc((1, s))[1]
+    if how == 'deepcopy_dict': return dc({'k': s})['k']
+    if how == 'deepcopy_dictkey':
+        try: return list(dc({s: 1}))[0]
+        except TypeError: return dc({'k': [s]})['k'][0]                          # mutable bitstrings are not hashable
+    if how == 'deepcopy_set':
+        try: return list(dc(frozenset([s])))[0]
+        except TypeError: return dc([(s,)])[0][0]
+    if how == 'deepcopy_nested': return dc([[s], {'a': (s, [other])}])[1]['a'][0]
+    if how == 'deepcopy_pair': return dc([s, s])[1]
+    if how == 'deepcopy_with_other': return dc([other, s, other])[1]
+    if how == 'deepcopy_namespace':
+        import types
+        return dc(types.SimpleNamespace(p=s, q=other)).p
+    if how == 'deepcopy_holder': return dc(_Holder(s)).payload
+    if how == 'deepcopy_slots_holder': return dc(_SlotHolder(s)).more['again']
+    if how == 'deepcopy_shallow_holder': return dc(_copy.copy(_Holder(s))).payload
+    if how == 'deepcopy_twice': return dc(dc(s))
+    if how == 'deepcopy_of_copy': return dc(_copy.copy(s))
+    if how == 'deepcopy_method':
+        f = getattr(s, '__deepcopy__', None)
+        return f({}) if f is not None else dc(s)
+    if how.startswith('pickle_') and how[7:].isdigit(): return pk(s, int(how[7:]))
+    if how == 'pickle_default': return pk(s)
+    if how == 'pickle_list': return pk([s, s])[1]
+    if how == 'pickle_dict': return pk({'k': (s,)})['k'][0]
+    if how == 'pickle_holder': return pk(_Holder(s)).payload
+    if how == 'pickle_with_other': return pk([other, {'s': s}])[1]['s']
+    if how == 'pickle_twice': return pk(pk(s, 2), 5)
+    if how == 'pickle_then_deepcopy': return dc(pk(s))
+    if how == 'reduce_ex':
+        # what copy.copy falls back to for a class without __copy__, applied by hand to a deep copy of the state: copyreg's reconstruction protocol
+        rec = getattr(_copy, '_reconstruct', None)
+        return rec(s, {}, *s.__reduce_ex__(4)) if rec is not None else dc(s)
+    raise AssertionError(how)
+
+def deep_histories(rng, tier):
+    """one history per class x duplication route: create, (edit / derive), duplicate, derive from the duplicate and from the original, edit every side, duplicate again, edit again"""
+    plain = ['construct', 'bits_kw', 'copycopy', 'dotcopy', 'slice', 'dotbits', 'add_empty', 'underscore_copy']
+    for rep in range(1 if tier == 'quick' else 12):
+        for cls in CLASSES:
+            for how in DEEP_DERIVE:
+                steps = []
+                n = rng.choice([8, 16, 24, 32])
+                chow = rng.choice(CREATE)
+                if rng.random() < 0.08: n, chow = 0, 'bin'
+                steps.append({'op': 'create', 'how': chow, 'cls': cls, 'bits': rand_bits(rng, n), 'reuse': False})
+                nobj = 1
+                if rng.random() < 0.3: steps.append({'op': 'mutate', 'how': rng.choice(MUTATE), 'target': 0, 'other': 0})
+                if rng.random() < 0.3:
+                    steps.append({'op': 'derive', 'how': rng.choice(plain), 'cls': rng.choice(CLASSES), 'src': 0}); nobj += 1
+                steps.append({'op': 'derive', 'how': how, 'cls': cls, 'src': 0, 'other': rng.randrange(nobj)}); dup = nobj; nobj += 1
+                # a mutable and an immutable object built from the duplicate, one from the original
+                steps.append({'op': 'derive', 'how': rng.choice(plain), 'cls': rng.choice(MUTABLE), 'src': dup}); nobj += 1
+                steps.append({'op': 'derive', 'how': rng.choice(plain), 'cls': rng.choice(['Bits', 'ConstBitStream']), 'src': dup}); nobj += 1
+                steps.append({'op': 'derive', 'how': rng.choice(plain), 'cls': rng.choice(CLASSES), 'src': 0}); nobj += 1
+                order = [dup, 0] if rng.random() < 0.5 else [0, dup]
+                for t_ in order + [rng.randrange(nobj) for _ in range(rng.randrange(1, 4))]:
+                    steps.append({'op': 'mutate', 'how': rng.choice(MUTATE), 'target': t_, 'other': rng.randrange(nobj)})
+                src2 = rng.choice([0, dup, rng.randrange(nobj)])
+                steps.append({'op': 'derive', 'how': rng.choice(DEEP_DERIVE), 'cls': cls, 'src': src2, 'other': rng.randrange(nobj)}); dup2 = nobj; nobj += 1
+                for t_ in [dup2, src2] + [rng.randrange(nobj) for _ in range(rng.randrange(0, 3))]:
+                    steps.append({'op': 'mutate', 'how': rng.choice(MUTATE), 'target': t_, 'other': rng.randrange(nobj)})
+                if rng.random() < 0.3: steps.append({'op': 'mutate_external', 'target': rng.randrange(nobj)})
+                yield {'op': 'history', 'steps': steps, 'lsb0': rng.random() < 0.2}
+
 def gen_cases(rng, tier):
+    yield from deep_histories(rng, tier)
     N = 220 if tier == 'quick' else 4000
     for _ in range(N):
         steps = []
@@ -186,6 +281,8 @@ def run_impl(c):
                         elif how == 'radd_lit_short': o = lit + C(bin='1')
                         elif how == 'radd_lit_long': o = lit + C(bin='10' * (len(s) + 1))
                         else: o = C(bin='1') + lit
+                    elif how in DEEP_DERIVE:
+                        o = deep_derive(how, s, objs[st.get('other', st['src'])])
                     info['same_object'] = o is s
                     objs.append(o); return None
                 if op == 'mutate':
@@ -247,6 +344,13 @@ def oracle(c, obs):
             if a != b:
                 return (f"step {st} changed object #{i} ({b[0]}): {b[1]!r} -> {a[1]!r}; history so far: "
                         f"{[s for s in c['steps'][:c['steps'].index(st) + 1]]}")
+        if op == 'derive' and st['how'] in DEEP_DERIVE and len(after) == len(before) + 1:
+            # a duplicate by the copy / pickle modules: an object of the same class and bits; a new object when the original is mutable
+            src = before[st['src']]
+            if after[-1] != src:
+                return f"{st}: the duplicate of object #{st['src']} {src} is {after[-1]}"
+            if info.get('same_object') and src[0] in MUTABLE:
+                return f"{st}: the duplicate of the mutable object #{st['src']} ({src[0]}) is that very object"
         dtype_route = st.get('how', '').split('_')[0] in ('kw', 'set', 'pack', 'build') and st.get('how') not in ('bytes_kw_bytearray', 'bytes_kw_memoryview_ro', 'bitarray_kw')
         if op == 'create' and len(after) == len(before) + 1 and after[-1][1] != st['bits'] and st['how'] not in ('str', 'fromstring') and not dtype_route:
             return f"create {st} gave {after[-1]}"
@@ -272,6 +376,8 @@ def coq_check(c, obs):
     """replay the history on the heap model: sharing graph and values after the last step"""
     ops = []
     nobj = 0
+    if any(st['op'] == 'derive' and st['how'] in DEEP_DERIVE for st in c['steps']):
+        return None      # the store flow of copy.deepcopy / pickle (a new store carrying the flag of the old one) is not an operation of the heap model: these histories are judged by the oracle
     for st, (before, r, after, part, info) in zip(c['steps'], obs[1]):
         if r[0] != 'ok': return None
         op = st['op']
